@@ -53,10 +53,48 @@ def _prim_defaults(raw):
     return n
 
 
+_FLOAT_OPS = {'Add': 'Add', 'Sub': 'Sub', 'Mul': 'Mul', 'Div': 'Div', 'Rem': 'Rem'}
+
+
+def _float_ref_ops(raw):
+    """`a * b` where a or b is a `&f64` compiles to a call of `<&f64 as Mul<f64>>::mul` (likewise Add/Sub/Div/Rem/Neg, f32):
+    the same IEEE operation as the MIR binop on the pointees, which is what it becomes.  Integer operators are left alone
+    (their trait impls carry the overflow check)."""
+    n = 0
+    for bb in raw['blocks']:
+        t = bb['term']
+        if t['t'] != 'call' or t.get('target') is None or t['dest']['p']:
+            continue
+        fc = t['func']
+        tr = fc.get('trait') or ''
+        if not tr.startswith('std::ops::') or fc.get('resolved_local'):
+            continue
+        opn = tr[len('std::ops::'):]
+        tys = [a.get('ty', '') for a in t['args']]
+        flt = lambda ty: ty.replace('&', '').replace('mut ', '').strip() in ('f64', 'f32')      # noqa: E731
+        if t['dest'].get('ty') not in ('f64', 'f32') or not tys or not all(flt(ty) for ty in tys):
+            continue
+
+        def val(a):
+            if a.get('k') == 'const' or not a.get('ty', '').startswith('&'):
+                return a
+            return {'k': 'copy', 'l': a['l'], 'p': list(a['p']) + ['deref'], 'ty': a['ty'].replace('&', '').replace('mut ', '').strip()}
+        if opn in _FLOAT_OPS and len(t['args']) == 2:
+            rv = {'r': 'binop', 'op': _FLOAT_OPS[opn], 'a': val(t['args'][0]), 'b': val(t['args'][1]), 'syn': 'float-ref-op'}
+        elif opn == 'Neg' and len(t['args']) == 1:
+            rv = {'r': 'unop', 'op': 'Neg', 'a': val(t['args'][0]), 'syn': 'float-ref-op'}
+        else:
+            continue
+        bb['stmts'].append({'s': 'assign', 'place': t['dest'], 'rv': rv, 'span': t.get('span'), 'syn': True})
+        bb['term'] = {'t': 'goto', 'target': t['target'], 'span': t.get('span'), 'syn': True}
+        n += 1
+    return n
+
+
 def rewrite(raw):
     """Rewrite every array-literal `vec!` expansion in this raw body (in place).  Returns the number rewritten."""
     blocks = raw['blocks']
-    n = _prim_defaults(raw)
+    n = _prim_defaults(raw) + _float_ref_ops(raw)
     for bi, bb in enumerate(blocks):
         t = bb['term']
         if t['t'] != 'call' or not (t['func'].get('fn') or '').endswith('box_assume_init_into_vec_unsafe') or bb.get('cleanup'):
